@@ -217,6 +217,7 @@ type Layout struct {
 	EmptyCmt    bool   `json:"empty_cmt"`    // a ### block comment inside empty containers: `[### c ###]`, with EmptyPad `[ ### c ### ]`
 	EmptyAnn    int    `json:"empty_ann"`    // elements without rules and note get an empty annotation at the line end: 1 `//`, 2 `// ` + blanks, 3 `/**/`, 4 `/* */`
 	ColonTab    bool   `json:"colon_tab"`    // a TAB between a rule name and its colon, a TAB behind the colon
+	EmptyHash   int    `json:"empty_hash"`   // line-end user comments without text: 1 `#` directly before the line break, 2 `#` and blanks
 	NoteBelow   bool   `json:"note_below"`   // an annotation that is only a note stands on a line of its own below its one-line element (last member / item, or the root)
 }
 
@@ -253,6 +254,7 @@ func RandLayout(rng *rand.Rand) Layout {
 		EmptyCmt:    rng.IntN(6) == 0,
 		EmptyAnn:    []int{0, 0, 0, 0, 0, 0, 1, 2, 3, 4}[rng.IntN(10)],
 		ColonTab:    rng.IntN(8) == 0,
+		EmptyHash:   []int{0, 0, 0, 0, 0, 0, 0, 1, 1, 2}[rng.IntN(10)],
 	}
 	return l
 }
@@ -302,6 +304,13 @@ func (p *printer) indent(level int) {
 func (p *printer) lineEndComment() {
 	if p.emptyAnn {
 		p.emptyAnn = false
+		return
+	}
+	if p.l.EmptyHash != 0 {
+		p.comment++
+		if p.comment%2 == 1 {
+			p.sb.WriteString([]string{" #", " # \t "}[(p.l.EmptyHash-1)%2])
+		}
 		return
 	}
 	if p.l.Comments == 0 {
